@@ -1,15 +1,20 @@
-"""C03 - see DESIGN.md section 3/C03; scenarios in catalog.jobs_C03, oracles in common."""
-from . import common, catalog
+"""C03 - see DESIGN.md section 3/C03; scenarios in catalog.jobs_C03, oracles in common;
+the legacy S3Transfer / process-pool front-ends are driven sequentially by frontends.py."""
+from . import common, catalog, frontends
 
-LEVEL = 'model_checking'
+LEVEL = "fault_enumeration"
 
 
 def run(tier, seed):
     jobs = catalog.jobs_for('C03', tier, seed)
     cov, viol = common.run_catalogue(jobs, tier, 'C03')
+    # C03 is stated for futures (transfer manager); the legacy S3Transfer has no
+    # future and deliberately retries any OSError, so it is not judged here
     return {'coverage': cov, 'violations': viol, 'level': LEVEL,
-            'assumptions': common.ASSUMPTIONS}
+            'assumptions': common.ASSUMPTIONS + ['legacy S3Transfer and the process-pool submitter/worker loop are driven under one canonical (sequential) schedule']}
 
 
 def replay(data):
+    if data.get('kind') == 'frontend':
+        return frontends.replay(data)
     return common.replay_manager(data)
